@@ -12,7 +12,7 @@ ENGINES = [
     dict(name="kani-harnesses", path="/verif/vk/kani_unit.py", serves_properties=["C01", "C02", "C08", "C09", "C12"],
          kind_free_text="cargo kani on the real crate; harness files /verif/kani/*_proofs.rs are compiled into the defining modules through cfg(kani) hooks; "
                         "loop-free full-domain harnesses are complete, harnesses with symbolic strings are bounded stand-ins and never counted as proved"),
-    dict(name="verus-units", path="/verif/vk/verus_unit.py", serves_properties=["C01", "C02", "C03", "C08", "C09", "C10", "C12", "C13", "C15", "C16", "C17", "C19", "C20"],
+    dict(name="verus-units", path="/verif/vk/verus_unit.py", serves_properties=["C01", "C02", "C03", "C07", "C08", "C09", "C10", "C12", "C13", "C15", "C16", "C17", "C19", "C20"],
          kind_free_text="mechanical extraction of the real functions (vk/extract.py, rules R1-R8) + contracts/<unit>.vc, discharged by Verus 0.2026.09.13 / Z3; "
                         "every diagnostic is mapped back to a named obligation (function::label)"),
 ]
@@ -110,6 +110,18 @@ CHECKS = {
         level_note="Sequential semantics. That the three transports call Client::left exactly once per ended session is glue (checked only by the bounded "
                    "sweep through the public API). get_mut / mem::replace have trusted specs.",
     ),
+    "C07": dict(
+        engine="verus-units", design_ref="DESIGN.md §10 'C07 contract notes'", technique="deductive verification (Verus/Z3) of function contracts, loop invariants and termination measures on the extracted real election_ops functions (single-node clauses only)",
+        text="Single-call half of the statement, for all start times, roles, member counts and whatever the pending-operation table answers: the REAL election_eval makes "
+             "a node yield (become Secondary, answer `election alive` once, not stand) exactly when the candidate has been running longer, contest (announce its own "
+             "candidacy carrying its own start time and external address exactly once, or win at once when alone) exactly when the candidate is younger, and ignore its "
+             "own candidacy; the REAL start_election / start_new_election terminate (both wait loops have a decreasing measure bounded by the election timeout, with the "
+             "node's role allowed to change at every sleep) and never leave the node undecided unless the candidacy could not be handed over; election_win makes the node "
+             "Primary and tells the supervisor. The bounded native sweep runs the same calls on real Databases objects (1-2 members, 3 roles, boundary start times).",
+        level_note="NOT decided: 'exactly one primary, the oldest, and all agree' over 2-3 nodes and all message interleavings - a multi-process invariant no single "
+                   "call's contract states; the SetPrimary/Join/Leave arms and the supervisor's set-primary broadcast. Sequential model with interference only at "
+                   "thread::sleep. A change that breaks the protocol without changing what one call does is not detected.",
+    ),
     "C20": dict(
         engine="verus-units", design_ref="DESIGN.md §5 C20 (claimed in §10 after fix a6540e8)", technique="deductive verification (Verus/Z3) of a function contract with loop invariants on the extracted real process_commands, over a FIFO model of the session's channel with a ghost call history",
         text="For every body (any number of commands, any blanks, any trailing ';') and whatever each command returns or queues: the REAL "
@@ -158,7 +170,6 @@ NOT_APPLICABLE = {
     "C04": "Convergence quantifies over message delivery orders between 2-3 processes; no contract on one call can state it and the code that forwards/fans out is the dyn-Fn dispatcher and async loops neither verifier accepts.",
     "C05": "Resynchronisation is a two-node protocol over sockets; the sync emitters build their lines inline while iterating HashMaps (Kani cannot, Verus has no string formatting), so even the encode/parse round trip of the sync line is out of reach.",
     "C06": "Snapshot/restore relates two runs through std::fs files written by one 110-line function with three buffered writers plus in-place write_at; deciding it needs a file-system model and a cross-snapshot offset invariant beyond what could be brought within Verus' reach; Kani has no file I/O and cannot build the map.",
-    "C07": "Election outcome depends on timers, thread sleeps and message interleavings; election_eval's comparison is inseparable from the blocking start_election it calls.",
     "C11": "Crash points of a writer are not expressible as pre/postconditions of a call; neither verifier has a crash-consistent file model.",
     "C14": "A bound on inter-node traffic is a global ranking argument over the dispatcher and the replication loop on several nodes.",
     "C18": "Both S3 strategies are async AWS-SDK network code inside a tokio runtime.",
